@@ -38,7 +38,7 @@ def fillDefaults (d : Deps) : Deps :=
 
 /-- stack temporaries that the library wipes. -/
 inductive Tmp where
-  | poly | strTmp | words | mask | passNorm
+  | poly | strTmp | words | mask | passNorm | idx
 deriving DecidableEq, Repr
 
 /-- one call of an injected dependency; the first field is the identity of the function called. -/
@@ -73,6 +73,7 @@ structure Cfg where
   sizeofData : Nat
   sizeofPoly : Nat
   sizeofPhrase : Nat
+  sizeofIdx : Nat
   numWords : Nat
   langs : List Lang
 
@@ -228,13 +229,16 @@ def decodeFinish (cfg : Cfg) (lib : Lib) (idx : List Nat) (coin : Nat) (langOut 
     else
       ⟨lib.put b d, ⟨.ok, some b, langOut⟩, pre ++ [e] ++ decodeWipes cfg lib, w1⟩
 
+/-- `polyseed_phrase_decode` wipes its private index array on both exits -/
+def detectWipe (cfg : Cfg) (lib : Lib) : Event := .zeroStack lib.deps.memzero .idx cfg.sizeofIdx
+
 def decode (cfg : Cfg) (env : Env) (lib : Lib) (str : List Nat) (coin : Nat) (w : World) : Res DecOut :=
   let (tmp, pre) := decompose cfg env lib str
   let (toks, n) := strSplit cfg.numWords tmp
   if n ≠ cfg.numWords then ⟨lib, ⟨.numWords, none, none⟩, pre ++ decodeWipes cfg lib, w⟩ else
   let det := phraseDecode cfg.langs toks
-  if det.status ≠ .ok then ⟨lib, ⟨det.status, none, det.langOut⟩, pre ++ decodeWipes cfg lib, w⟩ else
-  decodeFinish cfg lib det.idx coin det.langOut pre w
+  if det.status ≠ .ok then ⟨lib, ⟨det.status, none, det.langOut⟩, pre ++ [detectWipe cfg lib] ++ decodeWipes cfg lib, w⟩ else
+  decodeFinish cfg lib det.idx coin det.langOut (pre ++ [detectWipe cfg lib]) w
 
 def decodeExplicit (cfg : Cfg) (env : Env) (lib : Lib) (str : List Nat) (coin : Nat) (L : Lang) (w : World) :
     Res DecOut :=
